@@ -180,7 +180,7 @@ func (fx *FnExec) enterBlock(b *ssa.BasicBlock) *blockState {
 	for _, in := range ins {
 		pcs = append(pcs, in.cond)
 	}
-	pcName := fmt.Sprintf("pc_b%d", b.Index)
+	pcName := fmt.Sprintf("%spc_b%d", fx.namePrefix, b.Index)
 	fx.emit("(define-fun %s () Bool %s)", pcName, or(pcs...))
 	st.pc = pcName
 	// merge heaps
@@ -1002,7 +1002,7 @@ func (fx *FnExec) flow(from, to *ssa.BasicBlock, cond string) {
 		return
 	}
 	// name the edge condition to keep terms small
-	n := fmt.Sprintf("e_b%d_b%d", from.Index, to.Index)
+	n := fmt.Sprintf("%se_b%d_b%d", fx.namePrefix, from.Index, to.Index)
 	if prev, ok := fx.edgeCond[key]; ok {
 		// both If branches to the same block
 		fx.emit("(define-fun %s_2 () Bool %s)", n, or(prev, cond))
@@ -1874,6 +1874,10 @@ func (fx *FnExec) execNext(x *ssa.Next) {
 }
 
 func (fx *FnExec) execReturn(x *ssa.Return) {
+	if fx.inlRets != nil {
+		fx.inlineReturn(x)
+		return
+	}
 	var vals []Val
 	for _, r := range x.Results {
 		v := fx.val(r)
